@@ -398,10 +398,20 @@ func (m *MemoryBackend) Publish(client *Client, msg *packet.Message, ack Ack) er
 					return ErrQueueFull
 				}
 			} else if sess.activeClient != nil {
-				// wait for room since client is online
+				// add message if there is room, otherwise wait for room since
+				// client is online. if the client goes offline in the meantime
+				// the message is only ignored if the queue is still full
 				select {
 				case queue(sess) <- msg:
-				case <-sess.activeClient.Closing():
+				default:
+					select {
+					case queue(sess) <- msg:
+					case <-sess.activeClient.Closing():
+						select {
+						case queue(sess) <- msg:
+						default:
+						}
+					}
 				}
 			} else {
 				// ignore message if offline queue is full
